@@ -314,16 +314,29 @@ def compare_results(ref, res, cfg, stats=None):
         for k in sorted(rm):
             try:
                 a, b = np.asarray(rm[k]), np.asarray(mm[k])
-            except ValueError:  # ragged measurement lists: compare entry by entry
+                ragged = (a.dtype == object or b.dtype == object)
+            except ValueError:
+                ragged = True
+            if ragged:
+                # ragged lists or lists with None entries (a key that appeared late): compare entry by entry
                 la, lb = list(rm[k]), list(mm[k])
                 if len(la) != len(lb):
                     return ('resume.measurement_shape', f'{k}: {len(la)} vs {len(lb)} entries', {'key': k})
                 for j, (x, y) in enumerate(zip(la, lb)):
-                    x, y = np.asarray(x, dtype=float), np.asarray(y, dtype=float)
+                    if x is None or y is None:
+                        if (x is None) != (y is None):
+                            return ('resume.measurement_differs',
+                                    f'{k}: entry {j} is {"None" if x is None else "a value"} in the uninterrupted '
+                                    f'run and {"None" if y is None else "a value"} in the resumed run', {'key': k})
+                        continue
+                    try:
+                        x, y = np.asarray(x, dtype=complex), np.asarray(y, dtype=complex)
+                    except (TypeError, ValueError):
+                        if repr(x) != repr(y):
+                            return ('resume.measurement_differs', f'{k}: entry {j} differs', {'key': k})
+                        continue
                     if x.shape != y.shape or (x.size and float(np.max(np.abs(x - y))) > tol['meas']):
                         return ('resume.measurement_differs', f'{k}: entry {j} differs', {'key': k})
-                continue
-            if a.dtype == object or b.dtype == object:
                 continue
             if a.shape != b.shape:
                 return ('resume.measurement_shape', f'{k}: {a.shape} vs {b.shape}', {'key': k})
